@@ -260,6 +260,120 @@ fn case_state_observation(input: &Input, ctx: &mut Ctx) -> CaseResult {
     Ok(())
 }
 
+/// Two decodes in flight on one thread (a connection task that multiplexes two sockets, a bridge that decodes what it
+/// is about to forward while its own read is parked): decode A is an async (or poll) decode that is parked on a Pending
+/// of its transport after `k` bytes; while it is parked, B is decoded with every front-end of its family; then A is
+/// resumed. Nothing may panic, B's results are what they are without A, and A's result is what it is uninterrupted.
+fn interleaved<FA: Family, FB: Family>(a: &[u8], b: &[u8], ctx: &mut Ctx) -> CaseResult {
+    use std::future::Future;
+    use std::task::{Context, Poll};
+    let show_a = |r: &Result<FA::Packet, FA::Error>| format!("{:?}", r.as_ref().map(|q| fam::render(q)));
+    let alone_a = fam::dec_async::<FA>(a).0;
+    let alone_a_poll = fam::dec_poll::<FA>(a).result.map(|o| o.pkt);
+    let alone_b = (FB::decode(b), fam::dec_async::<FB>(b).0, fam::dec_poll::<FB>(b).result.map(|o| (o.total, o.pkt)), FB::header_decode(b));
+    let cuts: Vec<usize> = if a.len() <= 40 { (1..a.len()).collect() } else { (0..10u64).map(|i| 1 + (fnv(a).wrapping_mul(i * 2 + 1) >> 7) as usize % (a.len() - 1)).collect() };
+    let waker = crate::sio::noop_waker();
+    let mut cx = Context::from_waker(&waker);
+    let mut parked = 0u64;
+    for k in cuts {
+        for poll_front_end in [false, true] {
+            let steps = [Step::Chunk(k), Step::Pending];
+            let mut rd = crate::sio::ScriptedReader::new(a, &steps);
+            let mut state: mqtt_proto::GenericPollPacketState<FA::Header> = Default::default();
+            // (two futures of different types; the one not used is never created)
+            let mut fut_async = None;
+            let mut fut_poll = None;
+            if poll_front_end {
+                fut_poll = Some(Box::pin(mqtt_proto::GenericPollPacket::new(&mut state, &mut rd)));
+            } else {
+                fut_async = Some(Box::pin(FA::decode_async(&mut rd)));
+            }
+            let mut poll_a = |cx: &mut Context<'_>| -> Poll<Result<FA::Packet, FA::Error>> {
+                match (&mut fut_async, &mut fut_poll) {
+                    (Some(f), _) => f.as_mut().poll(cx),
+                    (_, Some(f)) => f.as_mut().poll(cx).map(|r| r.map(|(_, _, p)| p)),
+                    _ => unreachable!(),
+                }
+            };
+            let how = if poll_front_end { "poll" } else { "async" };
+            let want_a = if poll_front_end { &alone_a_poll } else { &alone_a };
+            let first = poll_a(&mut cx);
+            let done = match first {
+                Poll::Ready(r) => r,
+                Poll::Pending => {
+                    parked += 1;
+                    // B, with every front-end, while A is parked
+                    let now_b = (FB::decode(b), fam::dec_async::<FB>(b).0, fam::dec_poll::<FB>(b).result.map(|o| (o.total, o.pkt)), FB::header_decode(b));
+                    if now_b != alone_b {
+                        return Err(crate::run::Violation::new(format!(
+                            "while a {} {} decode of {} was parked after {} bytes, decoding {} as {} gave (blocking, async, poll, header) = {:?}; without the parked decode it gives {:?}",
+                            FA::FAM.name(), how, hex_short(a, 48), k, hex_short(b, 48), FB::FAM.name(),
+                            (now_b.0.as_ref().map(|o| o.as_ref().map(|q| fam::render(q))), now_b.1.as_ref().map(|q| fam::render(q)), now_b.2.as_ref().map(|q| (q.0, fam::render(&q.1))), &now_b.3),
+                            (alone_b.0.as_ref().map(|o| o.as_ref().map(|q| fam::render(q))), alone_b.1.as_ref().map(|q| fam::render(q)), alone_b.2.as_ref().map(|q| (q.0, fam::render(&q.1))), &alone_b.3)
+                        )));
+                    }
+                    let mut n = 0;
+                    loop {
+                        n += 1;
+                        if n > 8 {
+                            return Err(crate::run::Violation::new(format!("{} {} decode of {} parked after {} bytes does not complete when resumed (another decode ran in between)", FA::FAM.name(), how, hex_short(a, 48), k)));
+                        }
+                        if let Poll::Ready(r) = poll_a(&mut cx) {
+                            break r;
+                        }
+                    }
+                }
+            };
+            if done != *want_a {
+                return Err(crate::run::Violation::new(format!(
+                    "{} {} decode of {} parked after {} bytes while {} was decoded as {}: result {} but uninterrupted {}",
+                    FA::FAM.name(), how, hex_short(a, 48), k, hex_short(b, 48), FB::FAM.name(), show_a(&done), show_a(want_a)
+                )));
+            }
+        }
+    }
+    ctx.more_evals(parked);
+    if parked > 0 {
+        ctx.label("decode-while-another-is-parked");
+        if matches!(&alone_b.0, Ok(Some(_))) && alone_a.is_ok() {
+            ctx.label("both-inputs-accepted");
+            if ctx.nontrivial(fnv(a) ^ fnv(b).rotate_left(17)) {
+                ctx.sample(|| format!("A = {} {} parked at {} cut positions x 2 front-ends; B = {} {} decoded meanwhile", FA::FAM.name(), hex_short(a, 24), parked / 2, FB::FAM.name(), hex_short(b, 24)));
+            }
+        }
+    }
+    Ok(())
+}
+
+fn case_interleaved(input: &Input, ctx: &mut Ctx) -> CaseResult {
+    let mut t = Tape::new(input.tape());
+    let cfg = crate::gen::cfg_mix(&mut t, ctx.thorough);
+    let fams = t.pick(4);
+    // mostly accepted inputs with text in them: the interesting parked positions are inside fields
+    let gen = |t: &mut Tape, v5: bool| -> Vec<u8> {
+        if t.chance(1, 4) {
+            if v5 { corpus::gen_input::<V5>(t, &cfg).0 } else { corpus::gen_input::<V3>(t, &cfg).0 }
+        } else if v5 {
+            V5::gen(t, &cfg).ok().and_then(|p| V5::encode(&p).ok()).map(|e| e.as_ref().to_vec()).unwrap_or_else(|| vec![0xC0, 0])
+        } else {
+            V3::gen(t, &cfg).ok().and_then(|p| V3::encode(&p).ok()).map(|e| e.as_ref().to_vec()).unwrap_or_else(|| vec![0xC0, 0])
+        }
+    };
+    let a = gen(&mut t, fams & 1 == 1);
+    let b = gen(&mut t, fams & 2 == 2);
+    if a.len() < 2 || a.len() > 4096 || b.len() > 4096 {
+        ctx.label("skipped:size");
+        return Ok(());
+    }
+    match fams {
+        0 => interleaved::<V3, V3>(&a, &b, ctx),
+        1 => interleaved::<V5, V3>(&a, &b, ctx),
+        2 => interleaved::<V3, V5>(&a, &b, ctx),
+        _ => interleaved::<V5, V5>(&a, &b, ctx),
+    }
+}
+
+pub const SUB_INTER: Sub = Sub { name: "c03.interleaved", f: case_interleaved };
 pub const SUB_OBS: Sub = Sub { name: "c03.state-observation", f: case_state_observation };
 
 
@@ -353,7 +467,7 @@ pub const SUB_BLOCK: Sub = Sub { name: "c03.short-strings", f: case_block };
 pub const SUB_HB: Sub = Sub { name: "c03.header-body", f: case_header_body };
 
 pub fn subs() -> Vec<Sub> {
-    vec![SUB_TAPE, SUB_BYTES, SUB_BLOCK, SUB_HB, SUB_OBS, SUB_DECL]
+    vec![SUB_TAPE, SUB_BYTES, SUB_BLOCK, SUB_HB, SUB_OBS, SUB_DECL, SUB_INTER]
 }
 
 /// maximal declared lengths and other hand-written vectors
@@ -429,6 +543,9 @@ pub fn run(env: &mut Env) -> RunResult {
     env.run_enum(SUB_HB, 65_536, true, |i| Input::Nums(vec![i]))?;
     let n = env.tier.sel(40_000, 500_000);
     env.run_tapes(SUB_TAPE, n, 300)?;
+    env.run_tapes(SUB_INTER, n / 8, 500)?;
+    env.require("c03.interleaved", "decode-while-another-is-parked");
+    env.require("c03.interleaved", "both-inputs-accepted");
     env.note(format!("exhaustive: all byte strings of length <= {} and every 2-byte header followed by {} short bodies", maxlen, SHORT_BODIES.len()));
     env.require("c03.corrupted", "reaches-a-body-decoder");
     for o in corpus::ORIGINS {
